@@ -197,11 +197,15 @@ def dec_value(j):
 
 
 # ---------------------------------------------------------------- the check
-def main(run):
-    info = proof_stage(run, "C03", extra_targets=["corr/C03_corr.vo"])
-    harness_build()
+def main(run, only=None):
+    """only: the cases of a replay (no generation, no proof stage, no extra stage, no verdict)"""
     quick = run.tier == "quick"
-    cases = gen_cases(run, 140 if quick else 1500, 40 if quick else 400)
+    if only is None:
+        info = proof_stage(run, "C03", extra_targets=["corr/C03_corr.vo"])
+        harness_build()
+        cases = gen_cases(run, 140 if quick else 1500, 40 if quick else 400)
+    else:
+        cases = only
     toml = J.make_toml()
     reqs = []
     for c in cases:
@@ -306,7 +310,7 @@ def main(run):
         if not (bits & 4):
             continue
         n_dom += 1
-        rep = {"journal": c["text"], "selected_accounts": c["names"], "implementation_output": c["impl"], "source": c["src"],
+        rep = {"journal": c["text"], "selected_accounts": c["names"], "implementation_output": c["impl"], "source": c["src"], "case_kind": c["kind"],
                "replay_hint": "tackler --config <base.toml> --input.file <journal> --reports register [--accounts ...]; ./check C03 --replay <this file>"}
         if not (bits & 2):
             run.violation("register report contradicts the specification (canonical order / exact running totals / selection hides only)", rep)
@@ -319,6 +323,8 @@ def main(run):
             rep["side_conditions"] = c["side"]
             run.violation("correspondence broken: model Register.register / Txn.sort_txns differs from implementation (spec oracle clean on this input)",
                           rep, found_input=False)
+    if only is not None:
+        return None
     run.cov["distinct_nontrivial"] = len(distinct)
     run.cov["rule"] = ("corpus + seeded journals: 1-7 transactions on 1-3 instants of one pool (equal instants spelled with different UTC offsets, "
                        "+-1 ns / +-1 s / +-1 day neighbours), code/description/uuid from small pools incl. None vs \"\" and upper-case uuid, 2-5 accounts "
@@ -333,38 +339,29 @@ def main(run):
     ok_t, log_t = coq_make(["props/T01.vo"])
     if not ok_t:
         run.violation("proof obligation does not check: props/T01.v (report text model) failed to build",
-                      {"theorem_file": "coq/props/T01.v", "log": log_t[-2000:]}, found_input=False)
+                      {"theorem_file": "coq/props/T01.v", "log": log_t[-2000:], "stage": "T01"}, found_input=False)
     else:
         t01_text.run_text_stage(run, "register", n=(25 if run.tier == "quick" else 300))
     return run.finish(info)
 
 
 def replay(run, path):
-    j = json.load(open(path))
-    print(json.dumps(j, indent=1, ensure_ascii=False)[:6000])
-    rp = j.get("replay", {})
-    if "journal" not in rp:
-        return 0
+    """the stored journal + selection again: harness (register, text register under 3 styles x 2 zones) + c03_case /
+    c03_order_case; replays of the T01 text stage go to t01.replay (common.replay_begin)"""
+    j, rp, rc = replay_begin(run, path)
+    if rc is not None:
+        return rc
+    if not isinstance(rp.get("journal"), str):
+        return replay_print(j)
+    print(j.get("what"))
+    kind = rp.get("case_kind") or ("order" if "c03_order_case" in str(rp.get("correspondence")) else "reg")
+    c = {"text": rp["journal"], "names": list(rp.get("selected_accounts") or []), "src": "replay", "kind": kind}
+    print("journal:\n%s\nselected accounts: %s (%s case)" % (c["text"], c["names"], kind))
+    corr_build("C03")
     harness_build()
-    names = rp.get("selected_accounts", [])
-    res = harness_run([{"conf": {"toml": J.make_toml()}, "inputs": [{"text": rp["journal"]}],
-                        "ops": [{"op": "txns"}, {"op": "register", "ras": [esc_re(x) for x in names]}, {"op": "text_register"}]}])
-    r = res[0]
-    print("implementation now: stage=%s" % r.get("stage"))
-    if r.get("stage") != "done":
-        print(r.get("err"))
-        return 1
-    txns, reg = r["results"][0].get("ok"), r["results"][1].get("ok")
-    ks = [file_index(t) for t in txns]
-    by_file = [None] * len(txns)
-    for t, k in zip(txns, ks):
-        by_file[k] = t
-    entries = [{"idx": file_index(e["txn"]), "rows": e["rows"]} for e in reg]
-    term = "c03_case %s %s %s %s" % (g_list([g_txn(t) for t in by_file]), g_names(names), g_list([g_nat(k) for k in ks]), g_obs(entries))
-    vals, errs = coq_eval("C03", IMPORTS, [term])
-    bits = as_N(vals[0]) if vals else None
-    print("order:", ks)
-    for e in entries:
-        print(" txn", e["idx"], [(x["acc"], x["comm"], str(dec_value(x["amount"])), str(dec_value(x["total"]))) for x in e["rows"]])
-    print("bits=%s (1 model agrees, 2 specification holds, 4 exact domain)" % bits)
-    return 0 if bits is not None and (bits & 2 or not bits & 4) else 1
+    main(run, only=[c])
+    print("implementation now: %s" % json.dumps(c.get("impl", "journal not loaded / register not reached"), ensure_ascii=False)[:3000])
+    if c.get("text_fail"):
+        print("text report: %s" % c["text_fail"])
+    return replay_verdict(run, path, j, "order, running totals, selection and the text register of the stored journal are as specified and the model agrees "
+                                        "(or the case is not evaluated: rejected journal / outside the exact domain)")
